@@ -73,6 +73,9 @@ pub enum Case {
     Parse { vals: Vec<Val>, mutant: bool },
     /// (c)
     Enforce(Scen),
+    /// (c') the peer never answers: the caller's own side must cut the call off. `how`: 0 = Request::set_timeout,
+    /// 1 = raw grpc-timeout header (milliseconds), 2 = Endpoint::timeout
+    ClientOnly { to_ms: u32, how: u8, c2s: Vec<u8>, s2c: Vec<u8>, rt_seed: u64 },
 }
 
 // ------------------------------------------------------------------------------------------ tables (own)
@@ -452,7 +455,8 @@ fn enforce_case() -> BoxedStrategy<Case> {
 }
 
 pub fn strategy() -> BoxedStrategy<Case> {
-    prop_oneof![20 => enc_case(), 20 => parse_case(), 1 => enforce_case()].boxed()
+    let client_only = (1u32..=2000, 0u8..3, c02::pipe_schedule(), c02::pipe_schedule(), any::<u64>()).prop_map(|(to_ms, how, c2s, s2c, rt_seed)| Case::ClientOnly { to_ms, how, c2s, s2c, rt_seed });
+    prop_oneof![80 => enc_case(), 80 => parse_case(), 4 => enforce_case(), 1 => client_only].boxed()
 }
 
 // ------------------------------------------------------------------------------------------ (a) encoding
@@ -661,6 +665,72 @@ fn run_parse(vals: &[Val], mutant: bool, o: &mut Outcome) -> Result<(), Failure>
 }
 
 // ------------------------------------------------------------------------------------------ (c) enforcement
+
+// ------------------------------------------------------------------------------------------ (c') silent peer
+
+/// A raw h2 server (no tonic) that accepts the request and never answers. Whatever cuts the call off is the
+/// caller's own side: Request::set_timeout / a raw grpc-timeout header / Endpoint::timeout.
+fn run_client_only(to_ms: u32, how: u8, c2s: &[u8], s2c: &[u8], rt_seed: u64, o: &mut Outcome) -> Result<(), Failure> {
+    use hyper_util::rt::TokioIo;
+    o.label("enf_silent_peer");
+    o.label(match how % 3 {
+        0 => "silent_peer_set_timeout",
+        1 => "silent_peer_raw_header",
+        _ => "silent_peer_endpoint_timeout",
+    });
+    o.nontrivial = true;
+    let (cend, send_, _h) = crate::infra::pipe::pipe(c2s.to_vec(), s2c.to_vec());
+    let res = rt::run_virtual(rt_seed, Duration::from_secs(24 * 3600), async move {
+        let srv = tokio::spawn(async move {
+            let Ok(mut conn) = h2::server::handshake(send_).await else { return };
+            let mut held = vec![];
+            while let Some(Ok((req, respond))) = conn.accept().await {
+                held.push((req, respond)); // never answered
+            }
+        });
+        let cell = std::sync::Arc::new(std::sync::Mutex::new(Some(cend)));
+        let connector = tower::service_fn(move |_u: http::Uri| {
+            let cell = cell.clone();
+            async move { cell.lock().unwrap().take().map(TokioIo::new).ok_or_else(|| std::io::Error::new(std::io::ErrorKind::Other, "single-use connector")) }
+        });
+        let mut ep = tonic::transport::Endpoint::from_static("http://pipe.test");
+        if how % 3 == 2 {
+            ep = ep.timeout(Duration::from_millis(to_ms as u64));
+        }
+        let ch = match ep.connect_with_connector(connector).await {
+            Ok(ch) => ch,
+            Err(e) => return Err(format!("connect: {e:?}")),
+        };
+        let mut client = vt::raw_client::RawClient::new(ch);
+        let mut req = Request::new(b"ping".to_vec());
+        match how % 3 {
+            0 => req.set_timeout(Duration::from_millis(to_ms as u64)),
+            1 => {
+                req.metadata_mut().insert("grpc-timeout", format!("{to_ms}m").parse().unwrap());
+            }
+            _ => {}
+        }
+        let t0 = rt::virtual_ms().unwrap_or(0);
+        let r = client.unary(req).await;
+        let dt = rt::virtual_ms().unwrap_or(0) - t0;
+        srv.abort();
+        Ok((r.map(|_| ()).map_err(|s| (s.code(), s.message().to_string())), dt))
+    });
+    let (r, dt) = match res {
+        Err(_) => bail!("C09/deadline-not-enforced/by-the-caller-side", "the peer never answers and the call with a {to_ms} ms deadline never resolved (virtual-time watchdog)"),
+        Ok(Err(e)) => bail!("C09/silent-peer-setup", "{e}"),
+        Ok(Ok(x)) => x,
+    };
+    match r {
+        Ok(()) => bail!("C09/silent-peer-succeeded", "call succeeded although the peer never answered"),
+        Err((code, msg)) => {
+            ensure!(code == Code::Cancelled, "C09/timeout-status-code/caller-side", "deadline {to_ms} ms against a silent peer: {code:?} {msg:?}");
+            ensure!(msg == "Timeout expired", "C09/timeout-status-message/caller-side", "deadline {to_ms} ms against a silent peer: message {msg:?}");
+            ensure!(dt.abs_diff(to_ms as u64) <= 2, "C09/deadline-time/caller-side", "deadline {to_ms} ms against a silent peer: cut off after {dt} ms");
+        }
+    }
+    Ok(())
+}
 
 async fn channel_with_timeout(net: &Net, ep: Option<Duration>) -> Result<tonic::transport::Channel, tonic::transport::Error> {
     let mut e = tonic::transport::Endpoint::from_static("http://pipe.test");
@@ -913,6 +983,7 @@ pub fn run(c: &Case, o: &mut Outcome) -> Result<(), Failure> {
             o.label("family_parse");
             run_parse(vals, *mutant, o)
         }
+        Case::ClientOnly { to_ms, how, c2s, s2c, rt_seed } => run_client_only(*to_ms, *how, c2s, s2c, *rt_seed, o),
         Case::Enforce(s) => {
             o.label("family_enforce");
             run_enforce(s, o)
